@@ -218,6 +218,9 @@ impl Prop for C30 {
       let last = pi + 1 == pages.len();
       let ak = p.get("after_key").cloned().filter(|k| !k.is_null());
       if last {
+        if bs.is_empty() && pi > 0 {
+          s.fail("composite.after-key-but-no-more", "a page advertised more buckets through after_key but the next page is empty", case, json!({"page": pi}));
+        }
         if ak.is_some() {
           s.fail("composite.after-key-on-last-page", "the last page carries an after_key", case, json!({"page": pi, "after_key": ak}));
         }
